@@ -30,6 +30,9 @@ int poll_set_new_evt(poll_priv_t *priv, ev_src_t *tmp, const enum op_type flag) 
             /* We need to RM an unregistered ev. Fine. */
             return 0;
         }
+    } else if (flag == ADD) {
+        /* Already polled (eg: a ctx source registered by a callback while the loop was starting): nothing to do */
+        return 0;
     }
     
     int f = flag == ADD ? EPOLL_CTL_ADD : EPOLL_CTL_DEL;
